@@ -210,7 +210,10 @@ class Controller:
             raise SimCrash("kill after checkpoint")
 
 
-def run_incarnation(fs, spec, meta, dtype, seed, base, plan, log, use_ckpt):
+STALE = scenes.RUN + "/older-checkpoint.json"
+
+
+def run_incarnation(fs, spec, meta, dtype, seed, base, plan, log, use_ckpt, stale=None):
     """One incarnation of main() with all seams installed."""
     import torchtree.inference.mcmc.mcmc as mcmc_mod
     import torchtree.optim.optimizer as opt_mod
@@ -249,7 +252,12 @@ def run_incarnation(fs, spec, meta, dtype, seed, base, plan, log, use_ckpt):
             # randomness consumed while the objects are constructed (e.g. the step-size search
             # of an HMC operator) is owned too: a function of the seed and of the resume position
             ctl.reseed("construct", base)
-            out = incarnation.run_main(fs, copy.deepcopy(spec), checkpoint=meta["ckpt"] if use_ckpt else None, dtype=dtype)
+            ckpt = meta["ckpt"] if use_ckpt else None
+            if use_ckpt and stale is not None:
+                # `-c older -c newest`: main() applies the files in order, the newest has the last word
+                fs.put(STALE, stale)
+                ckpt = [STALE, meta["ckpt"]]
+            out = incarnation.run_main(fs, copy.deepcopy(spec), checkpoint=ckpt, dtype=dtype)
         finally:
             SimSignalHandler.controller = None
     return ctl, out
@@ -322,10 +330,17 @@ def execute(scenario, log=None, baseline=None):
     base = 0
     use_ckpt = False
     plans = list(scenario["plans"]) + [{"kind": "none"}]
+    stale_first = any(p.get("stale_first") for p in scenario["plans"])
     last_ckpt_rec = None
     known_bytes = {}
     for j, plan in enumerate(plans):
-        ctl, out = run_incarnation(fs, spec, meta, dtype, seed, base, plan, log, use_ckpt)
+        stale = None
+        if use_ckpt and stale_first and last_ckpt_rec is not None:
+            older = [c for c in known_bytes.values() if c["position"] < last_ckpt_rec["position"] and c.get("bytes")]
+            if older:
+                stale = max(older, key=lambda c: c["position"])["bytes"]
+                fired["restart_with_older_checkpoint_first"] = fired.get("restart_with_older_checkpoint_first", 0) + 1
+        ctl, out = run_incarnation(fs, spec, meta, dtype, seed, base, plan, log, use_ckpt, stale)
         stats["incarnations"] += 1
         stats["steps"] += ctl.steps_here
         stats["checkpoints"] += len(ctl.checkpoints)
@@ -578,6 +593,10 @@ def chains_for(recipe, baseline, seed, idx, extra):
     N = baseline["n"]
     for c in range(1, len(cps) + 1):
         chains.append([{"kind": "ckpt", "n": c}])
+    if len(cps) >= 2:
+        # restart given two files: an older checkpoint of the same run first, the newest last
+        chains.append([{"kind": "ckpt", "n": len(cps), "stale_first": True}])
+        chains.append([{"kind": "ckpt", "n": 2, "stale_first": True}])
     rng = Rng(hash64(seed, "c17-chains", idx))
     for _ in range(extra):
         depth = rng.weighted([1, 2, 3, 4], [4, 3, 2, 1])
